@@ -81,7 +81,10 @@ Clauses(ev, hs2, pm2, ob2) ==
 
 TInit == l = 1 /\ bad = <<>> /\ CInit
 
-Reject(why) == bad' = Append(bad, <<l, why>>)
+\* `bad` is part of the state: keep it bounded (the driver reports at most 200 lines per trace)
+MaxBad == 240
+Note(why) == IF Len(bad) < MaxBad THEN Append(bad, <<l, why>>) ELSE bad
+Reject(why) == bad' = Note(why)
 
 TNext ==
     /\ l <= NLog /\ l' = l + 1
@@ -93,16 +96,17 @@ TNext ==
             /\ UNCHANGED cvars
             /\ LET f == FailedOf(<< <<"no-exception", ~Has(ev, "exc")>>,
                                     <<"ParamsReach:setf-float-roundtrip", Has(ev, "n") /\ Has(ev, "f32same") /\ ev.n = 8 /\ ev.f32same = ev.n>> >>)
-               IN  bad' = (IF f = <<>> THEN bad ELSE Append(bad, <<l, f>>))
+               IN  bad' = (IF f = <<>> THEN bad ELSE Note(f))
        ELSE IF ev.e = "Begin" THEN
             /\ hs' = [s \in Slots |-> "absent"] /\ pm' = [p \in PSlots |-> NoMap] /\ ob' = [o \in OSlots |-> NoObj]
             /\ UNCHANGED bad
        ELSE IF ev.e # "Call" THEN UNCHANGED cvars /\ Reject(<<"recorder:" \o ev.e>>)
+       ELSE IF Has(ev, "exc") /\ ~WF(ev) THEN UNCHANGED cvars /\ Reject(<<"no-exception">>)   \* the call threw / was skipped
        ELSE IF ~WF(ev) THEN UNCHANGED cvars /\ Reject(<<"malformed">>)
        ELSE IF ~Guard(ev) THEN UNCHANGED cvars /\ Reject(<<"lifecycle">>)
        ELSE /\ Step(ev)
             /\ LET f == FailedOf(Clauses(ev, hs', pm', ob'))
-               IN  bad' = (IF f = <<>> THEN bad ELSE Append(bad, <<l, f>>))
+               IN  bad' = (IF f = <<>> THEN bad ELSE Note(f))
 
 Verdict == (l = NLog + 1) => VerdictLine(l, bad)
 =============================================================================
